@@ -362,6 +362,12 @@ func (p *parserDoer) onEntries(labels [][]string, timestampsNS []int64,
 
 func (p *parserDoer) onSpan(traceId []byte, spanId []byte, timestampNs int64, durationNs int64,
 	parentId string, name string, serviceName string, payload []byte, key []string, val []string) error {
+	// trace_id / span_id are FixedString(16) / FixedString(8) columns: appending any other length panics
+	// inside the insert service, in a goroutine without recover, after part of the shared batch was written
+	if len(traceId) != 16 || len(spanId) != 8 {
+		return fmt.Errorf("invalid span: trace id must be 16 bytes and span id 8 bytes, got %d and %d",
+			len(traceId), len(spanId))
+	}
 	p.spans.MTraceId = append(p.spans.MTraceId, traceId)
 	p.spans.MSpanId = append(p.spans.MSpanId, spanId)
 	p.spans.MTimestampNs = append(p.spans.MTimestampNs, timestampNs)
